@@ -171,8 +171,18 @@ func ticksNow() int64 {
 	return s
 }
 
-// lastTicks: loop iterations (Tick hook) used by the most recent guarded call.
+// lastTicks: loop iterations (Tick hook) used by the most recent guarded call;
+// lastSites: the loop sites it went through.
 var lastTicks int64
+var lastSites map[string]int64
+
+func siteTicks() map[string]int64 {
+	m := map[string]int64{}
+	for _, site := range fw.TickSites() {
+		m[site] = fw.TickCount(site)
+	}
+	return m
+}
 
 // iterFactor scales the tolerance of the iterative routines with the number
 // of sweeps actually performed: every sweep applies O(n) orthogonal
@@ -185,11 +195,17 @@ func iterFactor(n int) float64 {
 // guard runs f under the loop budget; returns a verdict for rejection / no-return.
 func guard(budget int64, f func() error) (verdict, bool) {
 	var err error
-	t0 := ticksNow()
+	t0, s0 := ticksNow(), siteTicks()
 	fw.SetTickBudget(budget)
 	p := fw.Call(func() { err = f() })
 	fw.SetTickBudget(0)
 	lastTicks = ticksNow() - t0
+	lastSites = map[string]int64{}
+	for k, v := range siteTicks() {
+		if d := v - s0[k]; d > 0 {
+			lastSites[k] = d
+		}
+	}
 	switch {
 	case p != nil && p.Budget:
 		return verdict{Skip: "no-return", Detail: p.Site}, false
